@@ -50,3 +50,20 @@ Proof. vm_compute. reflexivity. Qed.
 (* the number of client switches the model assumes *)
 Lemma tie_flag_count : N.of_nat (List.length GenFlags.init_flags) = 26.
 Proof. vm_compute. reflexivity. Qed.
+
+(* the statement of C17_flag_type_bijection, over the generated lists *)
+Lemma flag_type_bijection :
+  (forall i, (i < 26)%nat -> type_of_flag (nth i GenFlags.init_flags EmptyString) = N.of_nat i
+                          /\ type_of_flag (nth i GenFlags.change_flags EmptyString) = N.of_nat i)
+  /\ List.length GenFlags.init_flags = 26%nat
+  /\ GenFlags.init_flags = GenFlags.change_flags.
+Proof.
+  split; [|split; [vm_compute; reflexivity|exact tie_lists_equal]].
+  assert (H : forallb (fun i => (type_of_flag (nth i GenFlags.init_flags EmptyString) =? N.of_nat i)
+                                && (type_of_flag (nth i GenFlags.change_flags EmptyString) =? N.of_nat i))
+                      (seq 0 26) = true) by (vm_compute; reflexivity).
+  rewrite forallb_forall in H. intros i Hi.
+  assert (Hin : In i (seq 0 26)) by (apply in_seq; split; [apply le_0_n|exact Hi]).
+  specialize (H i Hin). apply andb_true_iff in H as [H1 H2].
+  apply N.eqb_eq in H1. apply N.eqb_eq in H2. split; assumption.
+Qed.
